@@ -69,14 +69,26 @@ func Parse(options Options) (module *ast.Module, err error) {
 		return nil, fmt.Errorf("Ungültige Parser Optionen: %w", err)
 	}
 
+	// errors reported by the scanner make the module faulty as well
+	scannerErrored := false
 	if options.Tokens == nil {
-		options.Tokens, err = scanner.Scan(options.ToScannerOptions(scanner.ModeStrictCapitalization))
+		scannerOptions := options.ToScannerOptions(scanner.ModeStrictCapitalization)
+		scannerOptions.ErrorHandler = func(err ddperror.Error) {
+			if err.Level == ddperror.LEVEL_ERROR {
+				scannerErrored = true
+			}
+			options.ErrorHandler(err)
+		}
+		options.Tokens, err = scanner.Scan(scannerOptions)
 		if err != nil {
 			return nil, fmt.Errorf("Fehler beim Scannen: %w", err)
 		}
 	}
 
 	module = newParser(options.FileName, options.Tokens, options.Modules, options.ErrorHandler).parse()
+	if scannerErrored {
+		module.Ast.Faulty = true
+	}
 	if options.FileName != "" {
 		path, err := filepath.Abs(options.FileName)
 		if err != nil {
